@@ -25,14 +25,68 @@ Proof.
   - intros a s' ((A & B) & C). auto.
 Qed.
 
+Lemma readName_go_ik field cnt : forall i s a s', readName_go cnt i field s = Ok (a, s') ->
+  forall o, tget (p_tree s) field = Some o -> exists o', tget (p_tree s') field = Some o' /\ o_infoIndex o' = o_infoIndex o.
+Proof.
+  induction cnt as [|cnt IH]; intros i s a s' H o Ho; cbn [readName_go] in H.
+  - inversion H; subst. eauto.
+  - apply bindM_ok in H. destruct H as (b & s1 & E1 & H). rewrite <- (notree_readByteM _ _ _ E1) in Ho.
+    apply bindM_ok in H. destruct H as (nm & s2 & E2 & H). rewrite <- (notree_tq _ _ _ _ E2) in Ho.
+    assert (W : forall v s3 u, wrf field (set_name v) s2 = Ok (u, s3) ->
+              exists o3, tget (p_tree s3) field = Some o3 /\ o_infoIndex o3 = o_infoIndex o).
+    { intros v s3 u E. unfold wrf, tu in E. destruct (wr (p_tree s2) field (set_name v)) as [t'| |] eqn:Ew; try discriminate.
+      inversion E; subst. destruct (wr_inv _ _ _ _ Ew) as (-> & _). cbn [p_tree with_tree]. rewrite get_tset, N.eqb_refl, Ho.
+      cbn [option_map]. eexists. split; [reflexivity|reflexivity]. }
+    destruct b as [b|]; apply bindM_ok in H; destruct H as (u & s3 & E3 & H); destruct (W _ _ _ E3) as (o3 & Ho3 & Ei).
+    + destruct (IH _ _ _ _ H o3 Ho3) as (o' & Ho' & E'). exists o'. split; [exact Ho'|congruence].
+    + inversion H; subst. eauto.
+Qed.
+
 Lemma readName_go_spec2 {md} P field cnt i s g : FIm md s g -> glive g field ->
   wp P (readName_go cnt i field) s (fun ok s' => FIm md s' g /\ at_ s s' 0 0 /\
-     forall j, j <> field -> tget (p_tree s') j = tget (p_tree s) j).
+     (forall j, j <> field -> tget (p_tree s') j = tget (p_tree s) j) /\
+     (forall o, tget (p_tree s) field = Some o -> exists o', tget (p_tree s') field = Some o' /\ o_infoIndex o' = o_infoIndex o)).
 Proof.
-  intros H Hl. eapply wp_weaken; [apply (wp_and_pc P _ s _ (fun _ s' => forall j, j <> field -> tget (p_tree s') j = tget (p_tree s) j)
+  intros H Hl. eapply wp_weaken; [apply (wp_and_pc P _ s _ (fun _ s' => (forall j, j <> field -> tget (p_tree s') j = tget (p_tree s) j) /\
+     (forall o, tget (p_tree s) field = Some o -> exists o', tget (p_tree s') field = Some o' /\ o_infoIndex o' = o_infoIndex o))
      (readName_go_spec P field cnt i s g H Hl))|auto|].
-  - intros a s' E j Hj. exact (readName_go_only field cnt i s a s' E j Hj).
-  - intros a s' ((A & B) & C). auto.
+  - intros a s' E. split; [intros j Hj; exact (readName_go_only field cnt i s a s' E j Hj)|exact (readName_go_ik field cnt i s a s' E)].
+  - intros a s' ((A & B) & C & D). auto.
+Qed.
+
+(** the objects a field list inserts next to its object: new, childless, with the NamedField row *)
+Definition nfrow (s : pstate) (x : N) : Prop :=
+  exists o, tget (p_tree s) x = Some o /\ opcodeTableIndex aml_pOpIntNamedField true = Some (o_infoIndex o).
+Definition sibs (g : ghost) (s' : pstate) (g' : ghost) (new : list N) : Prop :=
+  Forall (fun x => ~ glive g x /\ glive g' x /\ kids g' x = [] /\ nfrow s' x) new.
+Definition carry (g : ghost) (s1 : pstate) (g1 : ghost) (s2 : pstate) (g2 : ghost) : Prop :=
+  forall x, glive g1 x -> ~ glive g x -> kids g1 x = [] -> nfrow s1 x -> glive g2 x /\ kids g2 x = [] /\ nfrow s2 x.
+
+Lemma sibs_nil g s' g' : sibs g s' g' [].
+Proof. constructor. Qed.
+
+Lemma sibs_app g s' g' l1 l2 : sibs g s' g' l1 -> sibs g s' g' l2 -> sibs g s' g' (l1 ++ l2).
+Proof. intros A B. apply Forall_app. split; assumption. Qed.
+
+Lemma sibs_carry g s1 g1 s2 g2 new : sibs g s1 g1 new -> carry g s1 g1 s2 g2 -> sibs g s2 g2 new.
+Proof.
+  intros H C. unfold sibs in *. rewrite Forall_forall in *. intros x Hx. destruct (H x Hx) as (A & B & K & F).
+  destruct (C x B A K F) as (B' & K' & F'). auto.
+Qed.
+
+Lemma sibs_old g0 g s' g' new : sibs g s' g' new -> (forall x, glive g0 x -> glive g x) -> sibs g0 s' g' new.
+Proof.
+  intros H L. unfold sibs in *. rewrite Forall_forall in *. intros x Hx. destruct (H x Hx) as (A & B). split; [|exact B].
+  intros F. apply A. apply L. exact F.
+Qed.
+
+Lemma Fr_carry (P X E : N -> Prop) g s1 g1 s2 g2 :
+  Fr P X E s1 g1 s2 g2 -> gext g1 g2 -> (forall x, X x -> glive g x) -> (forall y, E y -> kids g1 y <> []) -> carry g s1 g1 s2 g2.
+Proof.
+  intros [K Fk] G HX HE x Hl Hn Hk (o & Ho & Hrow).
+  split; [apply (ge_live _ _ G); exact Hl|]. split.
+  - destruct (Fk x Hl) as (_ & Hex); [intros F; apply (HE x F); exact Hk|]. rewrite Hex; [exact Hk|]. intros F. apply Hn. apply HX. exact F.
+  - destruct (K x o Hl Ho) as (o' & Ho' & (_ & Ei & _) & _). exists o'. split; [exact Ho'|]. rewrite Ei. exact Hrow.
 Qed.
 
 Section Field2.
@@ -46,7 +100,7 @@ Definition EP (y : N) : Prop := y = par.
 Definition FPre2 (s : pstate) (g : ghost) (f : fstate) (l1 : list N) : Prop :=
   FIm md s g /\ In curObj (kids g par) /\ kids g par = l1 ++ f_appendAfter f :: tl /\ Phi s + 4 <= InvalidIndex.
 Definition FPost2 (s : pstate) (g : ghost) (l1 : list N) (a : N) (res : pres) (s' : pstate) (g' : ghost) : Prop :=
-  FPost s res s' /\ Fr NoP XC EP s g s' g' /\ exists new, kids g' par = l1 ++ a :: new ++ tl.
+  FPost s res s' /\ Fr NoP XC EP s g s' g' /\ exists new, kids g' par = l1 ++ a :: new ++ tl /\ sibs g s' g' new.
 Definition FSpec2 (fuel : nat) : Prop := forall f s g l1, FPre2 s g f l1 ->
   specm md (N.of_nat fuel <= rem s) (fieldElements_go fuel curObj f) s g (fun res s' g' => FPost2 s g l1 (f_appendAfter f) res s' g').
 
@@ -55,32 +109,38 @@ Lemma frec fuel (IH : FSpec2 fuel) f1 s g s1 g1 c l1 a pre new1 :
   FIm md s1 g1 -> at_ s s1 1 c -> c <= 4 -> gext g g1 -> In curObj (kids g1 par) ->
   kids g1 par = pre ++ f_appendAfter f1 :: tl -> pre ++ [f_appendAfter f1] = l1 ++ a :: new1 ->
   Fr NoP XC EP s g s1 g1 ->
-  Phi s + 4 <= InvalidIndex ->
+  Phi s + 4 <= InvalidIndex -> glive g curObj -> sibs g s1 g1 new1 ->
   wp (N.of_nat (S fuel) <= rem s) (fieldElements_go fuel curObj f1) s1
      (fun res s' => exists g', FIm md s' g' /\ Ext s g s' g' /\ FPost2 s g l1 a res s' g').
 Proof.
-  intros H1 A1 Hc Hext Hcur Hpos Hpre HF Hroom. destruct (at_Phi _ _ _ _ A1) as (P1 & P2).
+  intros H1 A1 Hc Hext Hcur Hpos Hpre HF Hroom Hlc Hsib. destruct (at_Phi _ _ _ _ A1) as (P1 & P2).
   eapply wp_weaken; [apply (IH f1 s1 g1 pre)|..].
   - split; [exact H1|]. split; [exact Hcur|]. split; [exact Hpos|]. lia.
   - intros Hf. lia.
-  - intros res s' (g' & F1 & F2 & (F3 & F4 & F5 & F6 & F7) & F8 & (new2 & F9)). exists g'. split; auto. split.
+  - intros res s' (g' & F1 & F2 & (F3 & F4 & F5 & F6 & F7) & F8 & (new2 & F9 & S9)). exists g'. split; auto. split.
     + eapply Ext_trans; [eapply at_Ext; eauto|exact F2].
     + destruct A1 as (_ & _ & _ & _ & A5 & A6). split; [|split].
       * split; [lia|]. split; [|split; [exact F5|split; congruence]]. intros Hr. specialize (F4 Hr). lia.
       * eapply Fr_trans; [exact HF|exact F8|apply (ge_live _ _ Hext)|auto|auto|auto].
-      * exists (new1 ++ new2). rewrite F9.
-        change (pre ++ f_appendAfter f1 :: new2 ++ tl) with (pre ++ [f_appendAfter f1] ++ new2 ++ tl).
-        rewrite app_assoc, Hpre. rewrite <- app_assoc. cbn [app]. rewrite <- app_assoc. reflexivity.
+      * exists (new1 ++ new2). split.
+        -- rewrite F9.
+           change (pre ++ f_appendAfter f1 :: new2 ++ tl) with (pre ++ [f_appendAfter f1] ++ new2 ++ tl).
+           rewrite app_assoc, Hpre. rewrite <- app_assoc. cbn [app]. rewrite <- app_assoc. reflexivity.
+        -- apply sibs_app.
+           ++ eapply sibs_carry; [exact Hsib|]. apply (Fr_carry NoP XC EP g s1 g1 s' g' F8 (ex_g _ _ _ _ F2)).
+              ** intros x ->. exact Hlc.
+              ** intros y -> E. rewrite E in Hcur. exact Hcur.
+           ++ eapply sibs_old; [exact S9|apply (ge_live _ _ Hext)].
 Qed.
 
 (** a failing return *)
-Lemma ffail (P : Prop) s g s1 g1 k c (res : pres) l1 a new1 :
+Lemma ffail (P : Prop) s g s1 g1 k c (res : pres) l1 a :
   FIm md s1 g1 -> at_ s s1 k c -> c <= 2 -> gext g g1 -> Fr NoP XC EP s g s1 g1 ->
-  kids g1 par = l1 ++ a :: new1 ++ tl -> res = RFailed ->
+  kids g1 par = l1 ++ a :: tl -> res = RFailed ->
   wp P (ret res) s1 (fun res s' => exists g', FIm md s' g' /\ Ext s g s' g' /\ FPost2 s g l1 a res s' g').
 Proof.
   intros H1 A1 Hc Hext HF Hk ->. destruct (at_Phi _ _ _ _ A1) as (P1 & P2).
-  apply wp_ret. exists g1. split; auto. split; [eapply at_Ext; eauto|]. split; [|split; [exact HF|exists new1; exact Hk]].
+  apply wp_ret. exists g1. split; auto. split; [eapply at_Ext; eauto|]. split; [|split; [exact HF|exists []; split; [exact Hk|apply sibs_nil]]].
   split; [lia|]. split; [discriminate|].
   destruct A1 as (_ & _ & _ & _ & A5 & A6). split; [discriminate|split; assumption].
 Qed.
@@ -96,7 +156,7 @@ Proof.
   assert (Hlp : lp s + 3 < InvalidIndex) by (unfold Phi in Hroom; lia).
   assert (F0 : Fr NoP XC EP s g s g) by apply Fr_refl.
   apply wp_bind, wp_get. destruct (eof (p_r s)) eqn:Ee.
-  { apply wp_ret. exists g. split; auto. split; [apply Ext_refl|]. split; [|split; [exact F0|exists []; exact Hpos]].
+  { apply wp_ret. exists g. split; auto. split; [apply Ext_refl|]. split; [|split; [exact F0|exists []; split; [exact Hpos|apply sibs_nil]]].
     split; [lia|]. split; [lia|]. split; [discriminate|split; reflexivity]. }
   apply wp_bind. apply wp_readByte; auto. intros nx r1 Hadv Hn Hs.
   destruct nx as [next|].
@@ -115,34 +175,34 @@ Proof.
     assert (A2 : at_ s (with_r s1 r2) 1 0).
     { apply at_adv0; auto. }
     destruct ok; cbn [negb].
-    - eapply (frec fuel IH _ s g _ g _ l1 (f_appendAfter f) l1 []); eauto using gext_refl. lia.
-    - eapply (ffail _ s g _ g _ _ _ l1 (f_appendAfter f) []); eauto using gext_refl; lia. }
+    - eapply (frec fuel IH _ s g _ g _ l1 (f_appendAfter f) l1 []); eauto using gext_refl, sibs_nil. lia.
+    - eapply (ffail _ s g _ g _ _ _ l1 (f_appendAfter f)); eauto using gext_refl; lia. }
   destruct (next =? 1) eqn:E1.
   { (* AccessField *)
     apply wp_bind. eapply wp_weaken; [apply (fieldByte_spec2 False s1 g H1)|intros []|]. intros a sa (Ha & Aa & Ta).
     assert (A2 : at_ s sa 1 0) by (eapply at_trans0; eauto).
     assert (Fa : Fr NoP XC EP s g sa g) by (eapply Fr_tree_eq; [exact F1|exact Ta]).
-    destruct a as [accessType|]; [|eapply (ffail _ s g _ g _ _ _ l1 (f_appendAfter f) []); eauto using gext_refl; lia].
+    destruct a as [accessType|]; [|eapply (ffail _ s g _ g _ _ _ l1 (f_appendAfter f)); eauto using gext_refl; lia].
     apply wp_bind. eapply wp_weaken; [apply (fieldByte_spec2 False sa g Ha)|intros []|]. intros b sb (Hb' & Ab & Tb).
     assert (A3 : at_ s sb 1 0) by (eapply at_trans0; eauto).
     assert (Fb : Fr NoP XC EP s g sb g) by (eapply Fr_tree_eq; [exact Fa|exact Tb]).
-    destruct b as [accessAttrib|]; [|eapply (ffail _ s g _ g _ _ _ l1 (f_appendAfter f) []); eauto using gext_refl; lia].
-    eapply (frec fuel IH _ s g _ g _ l1 (f_appendAfter f) l1 []); eauto using gext_refl. lia. }
+    destruct b as [accessAttrib|]; [|eapply (ffail _ s g _ g _ _ _ l1 (f_appendAfter f)); eauto using gext_refl; lia].
+    eapply (frec fuel IH _ s g _ g _ l1 (f_appendAfter f) l1 []); eauto using gext_refl, sibs_nil. lia. }
   destruct (next =? 3) eqn:E3.
   { (* ExtAccessField *)
     apply wp_bind. eapply wp_weaken; [apply (fieldByte_spec2 False s1 g H1)|intros []|]. intros a sa (Ha & Aa & Ta).
     assert (A2 : at_ s sa 1 0) by (eapply at_trans0; eauto).
     assert (Fa : Fr NoP XC EP s g sa g) by (eapply Fr_tree_eq; [exact F1|exact Ta]).
-    destruct a as [accessType|]; [|eapply (ffail _ s g _ g _ _ _ l1 (f_appendAfter f) []); eauto using gext_refl; lia].
+    destruct a as [accessType|]; [|eapply (ffail _ s g _ g _ _ _ l1 (f_appendAfter f)); eauto using gext_refl; lia].
     apply wp_bind. eapply wp_weaken; [apply (fieldByte_spec2 False sa g Ha)|intros []|]. intros b sb (Hb' & Ab & Tb).
     assert (A3 : at_ s sb 1 0) by (eapply at_trans0; eauto).
     assert (Fb : Fr NoP XC EP s g sb g) by (eapply Fr_tree_eq; [exact Fa|exact Tb]).
-    destruct b as [accessAttrib|]; [|eapply (ffail _ s g _ g _ _ _ l1 (f_appendAfter f) []); eauto using gext_refl; lia].
+    destruct b as [accessAttrib|]; [|eapply (ffail _ s g _ g _ _ _ l1 (f_appendAfter f)); eauto using gext_refl; lia].
     apply wp_bind. eapply wp_weaken; [apply (fieldByte_spec2 False sb g Hb')|intros []|]. intros c sc (Hc' & Ac & Tc).
     assert (A4 : at_ s sc 1 0) by (eapply at_trans0; eauto).
     assert (Fc : Fr NoP XC EP s g sc g) by (eapply Fr_tree_eq; [exact Fb|exact Tc]).
-    destruct c as [accessLength|]; [|eapply (ffail _ s g _ g _ _ _ l1 (f_appendAfter f) []); eauto using gext_refl; lia].
-    eapply (frec fuel IH _ s g _ g _ l1 (f_appendAfter f) l1 []); eauto using gext_refl. lia. }
+    destruct c as [accessLength|]; [|eapply (ffail _ s g _ g _ _ _ l1 (f_appendAfter f)); eauto using gext_refl; lia].
+    eapply (frec fuel IH _ s g _ g _ l1 (f_appendAfter f) l1 []); eauto using gext_refl, sibs_nil. lia. }
   pose proof (fi_rok _ _ H1) as Hrok1.
   assert (Eo1 : r_offset (p_r s1) = r_offset (p_r s) + 1) by exact Ho1.
   assert (Hpc : par <> curObj) by (intros E; eapply (R_child_neq_parent _ _ (fi_R _ _ H)); [exact Hcur|symmetry; exact E]).
@@ -152,7 +212,7 @@ Proof.
     assert (H2 : FIm md (with_r s1 r2) g) by (apply FI_adv; auto).
     assert (F2 : Fr NoP XC EP s g (with_r s1 r2) g) by (eapply Fr_tree_eq; [exact F1|reflexivity]).
     destruct nx2 as [next2|].
-    2:{ eapply (ffail _ s g _ g _ _ _ l1 (f_appendAfter f) []); [exact H2|apply at_adv0; eauto|lia|apply gext_refl|exact F2|exact Hpos|reflexivity]. }
+    2:{ eapply (ffail _ s g _ g _ _ _ l1 (f_appendAfter f)); [exact H2|apply at_adv0; eauto|lia|apply gext_refl|exact F2|exact Hpos|reflexivity]. }
     destruct (Hs2 _ eq_refl) as (Ho2 & Hb2 & Hlt2). clear Hn2 Hs2.
     set (s2 := with_r s1 r2) in *.
     assert (Eo2 : r_offset (p_r s2) = r_offset (p_r s) + 2) by (unfold s2; pcbn; lia).
@@ -188,13 +248,13 @@ Proof.
       assert (H5 : FIm md (with_r s4 r5) g4) by (apply FI_adv; auto).
       assert (F5 : Fr NoP XC EP s g (with_r s4 r5) g4) by (eapply Fr_tree_eq; [exact F4|reflexivity]).
       assert (A5 : at_ s (with_r s4 r5) 2 1) by (apply at_adv0; auto).
-      destruct ok; cbn [negb]; [|eapply (ffail _ s g _ _ _ _ _ l1 (f_appendAfter f) []); [exact H5|exact A5|lia|exact Hext4|exact F5|exact Hpos4|reflexivity]].
+      destruct ok; cbn [negb]; [|eapply (ffail _ s g _ _ _ _ _ l1 (f_appendAfter f)); [exact H5|exact A5|lia|exact Hext4|exact F5|exact Hpos4|reflexivity]].
       destruct (Hok5 eq_refl) as (_ & Hpl).
       apply wp_bind. eapply wp_weaken; [apply (dl_block_spec2 False (r_offset (p_r s4)) pkgLen _ g4 H5)|intros []|].
       intros dl s6 (H6 & A6' & T6).
       assert (A6 : at_ s s6 2 1) by (eapply at_trans0; eauto).
       assert (F6 : Fr NoP XC EP s g s6 g4) by (eapply Fr_tree_eq; [exact F5|exact T6]).
-      destruct dl as [dataLen|]; [|eapply (ffail _ s g _ _ _ _ _ l1 (f_appendAfter f) []); [exact H6|exact A6|lia|exact Hext4|exact F6|exact Hpos4|reflexivity]].
+      destruct dl as [dataLen|]; [|eapply (ffail _ s g _ _ _ _ _ l1 (f_appendAfter f)); [exact H6|exact A6|lia|exact Hext4|exact F6|exact Hpos4|reflexivity]].
       apply wp_bind. eapply new_step2; [exact H6|apply (newokb_sound aml_pOpIntByteList eq_refl)| |].
       { destruct A6 as (_ & _ & _ & L & _). lia. }
       intros carg t7 g7 cao H7 Hext7 Hfresh7 Hlive7 Hroot7 Hkids7 Hcao _ _ _ Hl7 Hfw7 Hks7 _.
@@ -213,7 +273,7 @@ Proof.
         destruct A7 as (B1 & B2 & B3 & B4 & B5 & B6). destruct R9 as (C1 & C2 & C3 & C4 & C5).
         pose proof (fi_rok _ _ H9) as (_ & _ & O9).
         unfold at_. repeat split; try lia; try congruence. }
-      destruct (pres_eqb res ROk); cbn [negb]; [|eapply (ffail _ s g _ _ _ _ _ l1 (f_appendAfter f) []); [exact H9|exact A9|lia|eapply gext_trans; eauto|exact F9|rewrite Hks7; exact Hpos4|reflexivity]].
+      destruct (pres_eqb res ROk); cbn [negb]; [|eapply (ffail _ s g _ _ _ _ _ l1 (f_appendAfter f)); [exact H9|exact A9|lia|eapply gext_trans; eauto|exact F9|rewrite Hks7; exact Hpos4|reflexivity]].
       apply wp_bind. apply wp_setPkgEnd.
       set (s10 := with_r s9 (fst (setPkgEnd (p_r s9) (r_pkgEnd (p_r s4))))).
       assert (Hrok10 : rok (p_r s10)) by (apply rok_setPkgEnd, (fi_rok _ _ H9)).
@@ -240,7 +300,7 @@ Proof.
       intros t12 H12 Hext12 Hpf12 Hk12 Hk12'.
       assert (F12 : Fr NoP XC EP s g (with_tree s11 t12) (astep g7 (OpAppend conn carg))).
       { apply (Fr_append NoP XC EP s g s11 g7 t12 _ conn carg F11 Hpf12 Hk12 Hk12'). intros h. contradiction. }
-      eapply (frec fuel IH _ s g _ _ _ l1 (f_appendAfter f) l1 []); [exact H12| |reflexivity| | | |reflexivity|exact F12|exact Hroom].
+      eapply (frec fuel IH _ s g _ _ _ l1 (f_appendAfter f) l1 []); [exact H12| |reflexivity| | | |reflexivity|exact F12|exact Hroom|exact Hlcur|apply sibs_nil].
       + eapply at_weaken; [apply at_pframe; [exact A11|exact Hpf12]|lia|lia].
       + eapply gext_trans; eauto.
       + apply (ge_kids _ _ Hext12); auto.
@@ -278,13 +338,13 @@ Proof.
       match type of H10 with FIm md ?st _ => set (s10 := st) in * end.
       assert (F10 : Fr NoP XC EP s g s10 g7) by (apply Fr_tset_fresh; [exact F9|exact Hfresh7g]).
       assert (A10 : at_ s s10 1 2) by (apply at_tset; exact A9).
-      destruct ok; cbn [negb]; [|eapply (ffail _ s g _ _ _ _ _ l1 (f_appendAfter f) []); [exact H10|exact A10|lia|eapply gext_trans; eauto|exact F10|rewrite Hks7; exact Hpos4|reflexivity]].
+      destruct ok; cbn [negb]; [|eapply (ffail _ s g _ _ _ _ _ l1 (f_appendAfter f)); [exact H10|exact A10|lia|eapply gext_trans; eauto|exact F10|rewrite Hks7; exact Hpos4|reflexivity]].
       apply wp_bind. eapply (append_step _ conn carg s10 g7 g4);
         [exact H10|exact Hwf4|exact Hext7|exact Hlconn4|exact Hfresh7|exact Hlive7|exact Hroot7|].
       intros t12 H12 Hext12 Hpf12 Hk12 Hk12'.
       assert (F12 : Fr NoP XC EP s g (with_tree s10 t12) (astep g7 (OpAppend conn carg))).
       { apply (Fr_append NoP XC EP s g s10 g7 t12 _ conn carg F10 Hpf12 Hk12 Hk12'). intros h. contradiction. }
-      eapply (frec fuel IH _ s g _ _ _ l1 (f_appendAfter f) l1 []); [exact H12| |reflexivity| | | |reflexivity|exact F12|exact Hroom].
+      eapply (frec fuel IH _ s g _ _ _ l1 (f_appendAfter f) l1 []); [exact H12| |reflexivity| | | |reflexivity|exact F12|exact Hroom|exact Hlcur|apply sibs_nil].
       + eapply at_weaken; [apply at_pframe; [exact A10|exact Hpf12]|lia|lia].
       + eapply gext_trans; eauto.
       + apply (ge_kids _ _ Hext12); auto.
@@ -303,7 +363,7 @@ Proof.
   { eapply at_r; [exact A1|reflexivity|unfold r2; cbn [r_offset r_len set_offset_raw]; lia|destruct Hrok2 as (_ & _ & O); exact O]. }
   apply wp_bind. eapply new_step2; [exact H2|apply (newokb_sound aml_pOpIntNamedField eq_refl)| |].
   { destruct A2 as (_ & _ & _ & L & _). lia. }
-  intros fld t3 g3 fo H3 Hext3 Hfresh3 Hlive3 Hroot3 Hkids3 Hfo _ _ _ Hl3 Hfw3 Hks3 _.
+  intros fld t3 g3 fo H3 Hext3 Hfresh3 Hlive3 Hroot3 Hkids3 Hfo _ _ Hrow3 Hl3 Hfw3 Hks3 _.
   set (s3 := with_tree (with_r s1 r2) t3) in *.
   assert (F3 : Fr NoP XC EP s g s3 g3) by (apply (Fr_new NoP XC EP s g (with_r s1 r2) g t3 g3 fld F2 (fun x Hx => Hx) Hfresh3 Hfw3 Hks3)).
   assert (A3 : at_ s s3 0 1) by (eapply at_new'; [exact A2|exact Hl3|reflexivity]).
@@ -313,15 +373,15 @@ Proof.
   assert (F4 : Fr NoP XC EP s g s4 g3) by (apply Fr_tset_fresh; [exact F3|exact Hfresh3]).
   assert (A4 : at_ s s4 0 1) by (apply at_tset; exact A3).
   apply wp_bind. eapply wp_weaken; [apply (readName_go_spec2 False fld (N.to_nat aml_amlNameLen) 0%nat s4 g3 H4 Hlive3)|intros []|].
-  intros okn s5 (H5 & A5' & T5).
+  intros okn s5 (H5 & A5' & T5 & I5).
   assert (F5 : Fr NoP XC EP s g s5 g3).
   { eapply Fr_gets; [exact F4|]. intros i Hi. apply T5. intros ->. contradiction. }
   assert (A5 : at_ s s5 0 1) by (eapply at_trans0; eauto).
-  destruct okn; cbn [negb]; [|eapply (ffail _ s g _ _ _ _ _ l1 (f_appendAfter f) []); [exact H5|exact A5|lia|exact Hext3|exact F5|rewrite Hks3; exact Hpos|reflexivity]].
+  destruct okn; cbn [negb]; [|eapply (ffail _ s g _ _ _ _ _ l1 (f_appendAfter f)); [exact H5|exact A5|lia|exact Hext3|exact F5|rewrite Hks3; exact Hpos|reflexivity]].
   apply wp_bind. apply wp_pkglen; [apply (fi_rok _ _ H5)|]. intros pkgLen ok r6 Hadv6 Hok6 Hnok6.
   assert (H6 : FIm md (with_r s5 r6) g3) by (apply FI_adv; auto).
   assert (F6 : Fr NoP XC EP s g (with_r s5 r6) g3) by (eapply Fr_tree_eq; [exact F5|reflexivity]).
-  destruct ok; cbn [negb]; [|eapply (ffail _ s g _ _ _ _ _ l1 (f_appendAfter f) []); [exact H6|apply at_adv0; [exact A5|exact Hadv6]|lia|exact Hext3|exact F6|rewrite Hks3; exact Hpos|reflexivity]].
+  destruct ok; cbn [negb]; [|eapply (ffail _ s g _ _ _ _ _ l1 (f_appendAfter f)); [exact H6|apply at_adv0; [exact A5|exact Hadv6]|lia|exact Hext3|exact F6|rewrite Hks3; exact Hpos|reflexivity]].
   destruct (Hok6 eq_refl) as (Hlt6 & _).
   set (s6 := with_r s5 r6) in *.
   assert (A6 : at_ s s6 1 1).
@@ -350,7 +410,21 @@ Proof.
     apply NoDup_remove_2 in Hnd. intros Hin. apply Hnd. apply in_or_app. left. exact Hin. }
   assert (F8 : Fr NoP XC EP s g (with_tree s7 t8) (astep g3 (OpAppendAfter par fld (f_appendAfter f)))).
   { apply (Fr_kids_E NoP XC EP s g s7 g3 t8 _ par F7 Hpf8 Hk8'). intros _. reflexivity. }
-  eapply (frec fuel IH _ s g _ _ _ l1 (f_appendAfter f) (l1 ++ [f_appendAfter f]) [fld]); [exact H8| |reflexivity|exact Hext8| |exact Ek8| |exact F8|exact Hroom].
+  assert (Hnf8 : nfrow (with_tree s7 t8) fld).
+  { assert (E4 : o4 = fo) by (unfold s3 in Hg4; pcbn_in Hg4; congruence). subst o4.
+    assert (E4 : exists o4', tget (p_tree s4) fld = Some o4' /\ o_infoIndex o4' = o_infoIndex fo).
+    { unfold s4. pcbn. rewrite get_tset, N.eqb_refl, Hg4. cbn [option_map]. eexists. split; reflexivity. }
+    destruct E4 as (o4' & Ho4' & Ei4). destruct (I5 _ Ho4') as (o5 & Ho5 & Ei5).
+    assert (E7 : o7 = o5) by (unfold s6 in Hg7; pcbn_in Hg7; congruence). subst o7.
+    assert (E7' : exists o7', tget (p_tree s7) fld = Some o7' /\ o_infoIndex o7' = o_infoIndex o5).
+    { unfold s7. pcbn. rewrite get_tset, N.eqb_refl, Hg7. cbn [option_map]. eexists. split; reflexivity. }
+    destruct E7' as (o7' & Ho7' & Ei7). destruct (proj2 Hpf8 _ _ Ho7') as (o8 & Ho8 & (_ & Ei8 & _)).
+    exists o8. split; [exact Ho8|]. rewrite Ei8, Ei7, Ei5, Ei4. exact Hrow3. }
+  assert (Hsib8 : sibs g (with_tree s7 t8) (astep g3 (OpAppendAfter par fld (f_appendAfter f))) [fld]).
+  { constructor; [|constructor]. split; [exact Hfresh3|]. split.
+    - apply ((R_gwf _ _ (fi_R _ _ H8)) par fld). rewrite Ek8. apply in_or_app. right. left. reflexivity.
+    - split; [|exact Hnf8]. rewrite Hk8'; [exact Hkids3|]. intros E. apply Hfresh3. rewrite E. exact Hlpar. }
+  eapply (frec fuel IH _ s g _ _ _ l1 (f_appendAfter f) (l1 ++ [f_appendAfter f]) [fld]); [exact H8| |reflexivity|exact Hext8| |exact Ek8| |exact F8|exact Hroom|exact Hlcur|exact Hsib8].
   + eapply at_weaken; [apply at_pframe; [exact A7|exact Hpf8]|lia|lia].
   + rewrite Hk8. apply In_insert_after_old. exact Hcur3.
   + cbn [f_appendAfter]. rewrite <- app_assoc. reflexivity.
@@ -363,7 +437,7 @@ Lemma parseFieldElements_spec2 {md} curObj par l1 tl s g :
   (exists co lo v, tget (p_tree s) curObj = Some co /\ tget (p_tree s) (o_last co) = Some lo /\
                    o_opcode lo <> opFreed /\ o_value lo = Some (VNum v)) ->
   specm md False (parseFieldElements curObj) s g (fun res s' g' =>
-    FPost s res s' /\ Fr NoP (XC curObj) (EP par) s g s' g' /\ exists new, kids g' par = l1 ++ curObj :: new ++ tl).
+    FPost s res s' /\ Fr NoP (XC curObj) (EP par) s g s' g' /\ exists new, kids g' par = l1 ++ curObj :: new ++ tl /\ sibs g s' g' new).
 Proof.
   intros H Hlast Hroom (co & lo & v & Hco & Hlo & Hllo & Hv). unfold specm, parseFieldElements.
   assert (Hcur : In curObj (kids g par)) by (rewrite Hlast; apply in_or_app; right; left; reflexivity).
